@@ -11,7 +11,8 @@ import sys
 import vlib
 
 # family checks whose runs feed the aggregates
-MEMBERS = ["C13", "C15", "C05", "C04", "C10", "C19", "C06", "C08"]
+MEMBERS = ["C13", "C15", "C05", "C04", "C10", "C19", "C06", "C08", "C16",
+           "C02", "C18"]
 
 
 def _run_member(args):
